@@ -236,6 +236,10 @@ func vcNameOf(b bpv7.Bundle) string {
 }
 
 func vcConf(algo string, budget int) RoutingConf {
+	if algo == "mule" {
+		inner := vcConf("epidemic", budget)
+		return RoutingConf{Algorithm: "sensor-mule", SensorMuleConf: SensorNetworkMuleConfig{Algorithm: &inner, SensorNodeRegex: "^dtn://s[0-9]"}}
+	}
 	return RoutingConf{Algorithm: algo, SprayConf: SprayConfig{Multiplicity: uint64(budget)},
 		ProphetConf: ProphetConfig{PInit: 0.5, Beta: 0, Gamma: 1, AgeInterval: "1000h"},
 		DTLSRConf:   DTLSRConfig{RecomputeTime: "1000h", BroadcastTime: "1000h", PurgeTime: "1000h"}}
